@@ -12,6 +12,9 @@ OptFNP   == (c1 :> O(5, 0, 0, FALSE, TRUE)) @@ (c2 :> O(5, 3, 3, FALSE, TRUE))
 Opt1Retry == (c1 :> O(5, 0, 0, FALSE, FALSE))
 Opt1All   == (c1 :> O(5, 3, 3, FALSE, TRUE))
 Bound == tserial <= 5
+\* liveness: no state constraint, no VIEW; finite by construction (timer serials and hand-offs stop)
+LiveNext == Next /\ tserial' <= 3 /\ nHand' <= 4
+LiveSpec == Init /\ [][LiveNext]_vars /\ Fairness
 View == <<opt, sockVars, ctxVars, timers, curResend, curSend, curRecv, inflight, asyncRs, callVars, issued, dead, handed, delivered>>
 Sym == Permutations({p1, p2}) \cup Permutations({t1, t2})
 ====
